@@ -6,7 +6,11 @@ package json
 func vfH_c15_shape() {
 	sh := jshapes[vfShape]
 	v := sh.mk()
-	flags := AppendFlags(vfFlags)
+	c15Sweep(v, AppendFlags(vfFlags))
+	vfCover("done")
+}
+
+func c15Sweep(v any, flags AppendFlags) {
 	ref, rerr := Append(nil, v, flags)
 	n := len(ref)
 	for _, p := range []int{0, 1, 3} {
@@ -39,6 +43,36 @@ func vfH_c15_shape() {
 			}
 		}
 	}
+}
+
+// H15-top: the same sweep on values passed at top level (no enclosing struct whose own roll-back could mask a wrong
+// slice returned by an inner encoder), including values whose encoding fails half-way: specialised maps, slices,
+// interfaces, Marshalers.
+func vfH_c15_top() {
+	var v any
+	switch vfMode {
+	case 0:
+		v = map[string]any{"a": int8(vfByte()), "b": jMarshalerV{fail: true}, "c": "x"}
+	case 1:
+		v = map[string]RawMessage{"a": RawMessage(`1`), "b": RawMessage(`{`)}
+	case 2:
+		v = map[string]string{"a": symStr(1), "b": "<"}
+	case 3:
+		v = map[string][]string{"a": {symStr(1)}, "b": nil}
+	case 4:
+		v = map[string]bool{"a": vfBool()}
+	case 5:
+		v = []any{symStr(1), jMarshalerV{fail: true}}
+	case 6:
+		v = map[int8]any{1: "x", 2: jMarshalerV{fail: true}}
+	case 7:
+		v = jMarshalerV{b: vfBytes(2)}
+	case 8:
+		v = []string{symStr(1), "&"}
+	case 9:
+		v = map[string]any{"k": map[string]any{"i": jMarshalerV{fail: true}}}
+	}
+	c15Sweep(v, AppendFlags(vfFlags))
 	vfCover("done")
 }
 
